@@ -12,6 +12,20 @@ parameter used) or a node for every row of the parameter table.
 namespace MaestroVerif.Expand
 open MaestroVerif.Subst
 
+/-- one iteration of `for step in t_sorted`: the step filed under the `idx`-th name of the flow -/
+def stageIdx (spec : Spec) (ord : List Str → List Str) (flow : Flow) (acc : Except Err SS) (idx : Nat) :
+    Except Err SS :=
+  match acc with
+  | .error e => .error e
+  | .ok s =>
+    match flow.names[idx]? with
+    | none => .ok s
+    | some nm =>
+      if nm == SOURCE then .ok s
+      else match flow.steps.find? (·.1 == nm) with
+        | none => .ok s
+        | some (_, st) => stageStep spec ord s st
+
 /-- the loop of `stage`, returning the staging state it ends in -/
 def stageSS (spec : Spec) (ord : List Str → List Str) : Except Err SS :=
   match buildFlow spec.steps with
@@ -19,18 +33,7 @@ def stageSS (spec : Spec) (ord : List Str → List Str) : Except Err SS :=
   | .ok flow =>
     match Dag.topoSort flow.dag with
     | none => .error .recursion
-    | some order =>
-      order.foldl (fun (acc : Except Err SS) idx =>
-        match acc with
-        | .error e => .error e
-        | .ok s =>
-          match flow.names[idx]? with
-          | none => .ok s
-          | some nm =>
-            if nm == SOURCE then .ok s
-            else match flow.steps.find? (·.1 == nm) with
-              | none => .ok s
-              | some (_, st) => stageStep spec ord s st) (.ok (initSS spec.root))
+    | some order => order.foldl (stageIdx spec ord flow) (.ok (initSS spec.root))
 
 /-- `stage` is `stageSS` followed by taking the graph -/
 theorem stage_eq_stageSS (spec : Spec) (ord : List Str → List Str) :
@@ -61,9 +64,9 @@ theorem stageSS_inv {Q : SS → Prop} (spec : Spec) (ord : List Str → List Str
     · refine foldl_except_inv Q _ ?_ ?_ _ _ sf ?_ h
       · intro a idx s'' ha hstep
         cases a with
-        | error e => simp at hstep
+        | error e => simp [stageIdx] at hstep
         | ok sa =>
-          simp only at hstep
+          simp only [stageIdx] at hstep
           split at hstep
           · simp only [Except.ok.injEq] at hstep; subst hstep; exact ha sa rfl
           · split at hstep
